@@ -792,7 +792,7 @@ pub fn run(cfg: &Cfg, corpus: &Corpus) -> Result<TierResult, String> {
     }
     Ok(TierResult {
         json: json!({
-            "ran": true, "cargo_invocations_under_shim": compiles, "entropy_seeds": runs.iter().map(|r| r.entropy_seed).collect::<Vec<_>>(),
+            "ran": true, "cargo_invocations_under_shim": compiles, "other_package_built_by_toolchain": other_toolchain().unwrap_or("(the same: no second toolchain installed)"), "entropy_seeds": runs.iter().map(|r| r.entropy_seed).collect::<Vec<_>>(),
             "runs_with_noisy_env": runs.iter().filter(|r| !r.extra_env.is_empty()).count(),
             "candidates_classified": sel.candidates, "rejected_items": sel.rej.len(), "panicking_items": sel.pan.len(), "accepted_items": sel.acc.len(),
             "crates": summary, "wall_s": t0.elapsed().as_secs_f64(),
